@@ -398,6 +398,9 @@ func (x *Exec) contractCall(fr *Frame, st *State, ins ssa.Instruction, c *Contra
 	}
 	// 4. postconditions
 	for _, cl := range c.Ensures {
+		if cl.Known {
+			continue // a clause recorded as a known finding is never assumed
+		}
 		t := x.evalGhost(fr, x.ghostOf(c, cl.Ghost), append(append([]Term{}, args...), results...), nil, st, pre)
 		if vc.noName > 0 {
 			panic(engErr("call by contract inside quantifier body"))
